@@ -49,7 +49,7 @@ def _cases(draw, tier):
     order = draw(st.permutations(list(range(len(ks)))))
     # batch: 0 = one sample per write() call (drawn order), 1 = ONE write() call with all (ascending) samples,
     # 2 = two calls (first half, second half), 3 = ONE call with the samples in the drawn order
-    return dict(p, ks=ks, order=list(order), batch=batch)
+    return dict(p, ks=ks, order=list(order), batch=batch, dirmode=draw(st.sampled_from([None, None, None, 0o555, 0o311, 0o311])))
 
 
 def strategy(tier):
@@ -58,7 +58,13 @@ def strategy(tier):
 
 def directed_cases(tier):
     # design-phase probe (F5): 10^6/3 Hz, k = 693249492000000 belongs to second 2079748476
-    return [{"n": 1000000, "d": 3, "C": 1, "S": 3600, "prefix": "md", "ks": [693249492000000]}]
+    out = [{"n": 1000000, "d": 3, "C": 1, "S": 3600, "prefix": "md", "ks": [693249492000000]}]
+    # file-name prefixes with a blank at either end, subdirectories that can be searched but not listed
+    for prefix in ("station 7 ", " lead"):
+        for dirmode in (None, 0o311):
+            out.append({"n": 10, "d": 3, "C": 2, "S": 6, "prefix": prefix, "ks": [5000000000, 5000000007, 5000000020, 5000000021, 5000000100],
+                        "dirmode": dirmode})
+    return out
 
 
 def run_case(case):
@@ -122,6 +128,29 @@ def run_case(case):
                     if str(ks[i]) not in f:
                         res.fail("writer-group-missing", "k=%d not in %s" % (ks[i], rel))
                         return res
+        # permission bits of the time-stamped subdirectories while the archive is read: as created / read-only / search-only
+        # (--x: entries can be opened by name but the directory cannot be listed; the check runs without root's override)
+        dirmode = case.get("dirmode")
+        from vlib import unpriv
+        if dirmode is not None and not unpriv.ENFORCED:
+            res.cls("permissions-not-enforced")
+            dirmode = None
+        subdirs = [os.path.join(md, x) for x in os.listdir(md) if os.path.isdir(os.path.join(md, x))]
+        if dirmode is not None:
+            res.cls("subdirectories-mode-%03o" % dirmode)
+            for sd_ in subdirs:
+                os.chmod(sd_, dirmode)
+        try:
+            _read_phase(res, drf, md, case, listing_ok=dirmode in (None, 0o555))
+        finally:
+            for sd_ in subdirs:
+                os.chmod(sd_, 0o755)
+    return res
+
+
+def _read_phase(res, drf, md, case, listing_ok=True):
+    n, d, C, S, prefix, ks = case["n"], case["d"], case["C"], case["S"], case["prefix"], case["ks"]
+    if True:
         r = drf.DigitalMetadataReader(md)
         for i, k in enumerate(ks):
             try:
@@ -139,6 +168,8 @@ def run_case(case):
                     res.fail("reader-candidates", "k=%d candidates %r exact %s" % (k, fl, M.exact_path(k, n, d, C, S, prefix)))
             except Exception as e:
                 res.fail("reader-candidates-exception", "%s: %s" % (type(e).__name__, e))
+        if not listing_ok:
+            return  # (the latest sample and the bounds are found by listing the directories)
         try:
             latest = r.read_latest()
             if [int(x) for x in latest.keys()] != [ks[-1]]:
@@ -151,7 +182,6 @@ def run_case(case):
                 res.fail("range-read", "read(%d,%d) keys %r expected %r" % (ks[0], ks[-1], list(allr.keys()), ks))
         except Exception as e:
             res.fail("range-read-exception", "%s: %s" % (type(e).__name__, e))
-    return res
 
 
 def shrink_candidates(case):
